@@ -1378,6 +1378,9 @@ IW_INLINE WUR iwrc _sblk_destroy(struct iwlctx *lx, struct sblk **sblkp) {
     if (lx->db->lcnt[sblk->lvl]) {
       lx->db->lcnt[sblk->lvl]--;
       lx->db->flags |= SBLK_DURTY;
+      if (lx->dblk.addr) { // the counters are stored with the database head block
+        lx->dblk.flags |= SBLK_DURTY;
+      }
     }
 
     {
@@ -1451,6 +1454,9 @@ static WUR iwrc _sblk_create_v1(
   sblk = &lx->saa[lx->saan];
   sblk->db = lx->db;
   sblk->db->lcnt[nlevel]++;
+  if (lx->dblk.addr) { // the counters are stored with the database head block
+    lx->dblk.flags |= SBLK_DURTY;
+  }
   sblk->db->flags |= SBLK_DURTY;
   sblk->addr = baddr;
   sblk->flags = SBLK_DURTY;
